@@ -37,13 +37,25 @@ def run(chk, tier):
     chk.add("fault_programs", nf)
     with phase(chk, "oracle+goja"):
         states, bad, explained = oracle.compare(chk, binp, progs, wd, "l0", DEVS, "MiniJS L0-L1")
+    # generator return() / throw() and yield* delegation through pending finally blocks (the full driver-history family is C09's)
+    gprogs = []
+    with phase(chk, "generate-generators"):
+        for i in range(40000 if thorough else 6000):
+            gprogs.append(mjgen.random_program(len(progs) + len(gprogs), rnd, gen=True, maxd=2 + i % 2, focus="abrupt"))
+    with phase(chk, "oracle+goja-generators"):
+        st2, bad2, _ = oracle.compare(chk, binp, gprogs, wd, "l2", DEVS, "MiniJS L2 (generator return / throw / yield* through finally)")
+    chk.add("generator_programs", len(gprogs))
+    states += st2
+    bad += bad2
+    progs = progs + gprogs
     chk.setcov("programs", len(progs))
     chk.setcov("disagreements_checked", bad)
     chk.setcov("states", states)
     chk.setcov("transitions", states)
     chk.setcov("traces_validated_against_impl", len(progs))
     chk.setcov("rule", "systematic nestings (depth 2%s) of try/catch/finally positions, 5 loop kinds, for-of over instrumented iterators, "
-               "labels, switch with one abrupt completion of each kind at the innermost position + seeded random programs; TLC evaluates "
+               "labels, switch with one abrupt completion of each kind at the innermost position + seeded random programs + seeded random generator "
+               "bodies (try/finally around yield and yield* over instrumented iterators) driven by next / return / throw histories; TLC evaluates "
                "MiniJS.tla on each, goja runs the printed source, logs and completions are compared" % (" and 3" if thorough else ""))
 
 
